@@ -143,7 +143,11 @@ def long_open(tier, seed):
             fails.append({'what': f'configuration refused: {e}', 'input': {'capability': cap}})
             continue
         body = H.peer_open_bytes(65001, 180, '9.9.9.9', H.std_caps(65001))
-        neg, sent, recv = H.negotiated(nb, body)
+        try:
+            neg, sent, recv = H.negotiated(nb, body)
+        except Exception as e:  # noqa
+            fails.append({'what': f'our own long OPEN is not decodable by ExaBGP: {type(e).__name__}: {str(e)[:200]}', 'input': {'capability': cap}})
+            continue
         raw = bytes(sent.pack_message(neg))
         inp = {'capability': cap, 'open': raw.hex()}
         try:
